@@ -1,8 +1,11 @@
 SPECIFICATION Spec
 CONSTANTS
+  PayloadIds = 2
+  IndepDepth = 0
   PairMode = "allcodecs"
   Universe <- UniverseCrashQuick
   FormatsUsed <- CrashFormats
   Origin = "writer"
 INVARIANT InvWriterModel
+INVARIANT InvMBTilesPlan
 CHECK_DEADLOCK FALSE
